@@ -405,7 +405,7 @@ theorem serveSt_noRate (stack : List LayerCfg) (st : List Nat) (h : Req → Scri
             eff_kind, hx1, retryMul, hr', post_eff, Bool.false_eq_true, if_false]
           congr 2
           have : x1.invoked + (x1.invoked + x1.invoked) = 3 * x1.invoked := by omega
-          simp [this]
+          cases hsn : x1.seen <;> simp [this, Outcome.seenCaps, hsn]
         · simp only [serveSt, hi', k1o, k2o, Outcome.retryableBy, hr, if_true, Bool.false_eq_true, if_false, effStack, hhd,
             List.tail_cons, heff, k3s]
       · have hr0 : retryable l x1 = false := by simpa using hr
